@@ -240,6 +240,40 @@ def cover_case(job):
             'cls': cls, 'pos': pos, 'grammar': g, 'textstr': text, 'lexer': lexer}
 
 
+def allowed_phase(tier, rng, ev, rep, tmp):
+    """UnexpectedCharacters.allowed of the basic and contextual lexers on the keyword/identifier terminal sets of C07 (TraceLex, mode C08A)"""
+    from . import c07
+    sps = [sp for sp in c07.specs('quick', random.Random(rng.randrange(1 << 30))) if len(sp['terms']) <= 6][:C.scale(500 if tier == 'quick' else 2500)]
+    for sp in sps:
+        sp['texts'] = sp['texts'][:8] + ['?', 'if ?', 'a ?', '1?']
+    cases = [c for c in C.pmap(c07.observe_case, sps) if not c['skip']]
+    keys = ('n', 'M', 'NL', 'a', 'mode', 'toks', 'among', 'allowed', 'err', 'ecls', 'eline', 'ecol', 'basicacc', 'ctxacc', 'same', 'overlap')
+    nerr = 0
+    for c in cases:
+        c['runs'] = [r for r in c['runs'] if r['mode'] in ('basic', 'ctx')]
+        nerr += sum(1 for r in c['runs'] if r['ecls'] == 'UnexpectedCharacters')
+    ev.count('lexer_errors_with_allowed_sets', nerr)
+    if nerr < 200:
+        raise C.MachineryFailure('allowed-set family: only %d UnexpectedCharacters' % nerr)
+    CH = 250
+    jobs = []
+    for off in range(0, len(cases), CH):
+        chunk = cases[off:off + CH]
+        jobs.append((chunk, C.write_batch({'cases': [{'T': c['T'], 'rank': c['rank'], 'SM': c['SM'], 'order': c['order'],
+                                                      'runs': [{k: r[k] for k in keys} for r in c['runs']]} for c in chunk]}, tmp, 'c08_allowed_%d.json' % off)))
+    results = C.tlc_parallel('TraceLex', TRACE_END_CFG, [j[1] for j in jobs], continue_=True, timeout=3000, env={'VERIF_WHICH': 'C08A'})
+    for (chunk, path), res in zip(jobs, results):
+        C.tlc_must_run(res, 'TraceLex[C08A]')
+        ev.add_tlc('TraceLex[C08A]', res, 'trace')
+        os.remove(path)
+        for v in sorted(set(tuple(x) for x in res.verdicts)):
+            c = chunk[int(v[0]) - 1]
+            r = c['runs'][int(v[1]) - 1]
+            rep.violation({'property': PID, 'clause': 'lexer:' + v[2], 'grammar': c['sgtext'] if r['mode'] == 'ctx' and c.get('sgtext') else c['gtext'],
+                           'text': json.loads(r['text']), 'config': 'lalr/' + ('contextual' if r['mode'] == 'ctx' else 'basic'),
+                           'allowed': [c['T'][i - 1]['name'] for i in r['allowed']], 'held': [c['T'][i - 1]['name'] for i in r['among'][len(r['toks'])]]})
+
+
 def cover_phase(tier, rng, ev, rep, tmp):
     jobs = [(g, t, lx) for g, texts in COVER_GRAMMARS for t in texts for lx in ('dynamic', 'dynamic_complete')]
     for g, texts in COVER_GRAMMARS:
@@ -340,6 +374,7 @@ def body(tier, seed, replay):
         judge(cases, ev, rep, tmp, 'sweep')
         end_token_phase(ev, rep, tmp)
         cover_phase(tier, rng, ev, rep, tmp)
+        allowed_phase(tier, rng, ev, rep, tmp)
         selftest(ev, cases, tmp)
         if ev.cov['counts'].get('rejections', 0) < 5000:
             raise C.MachineryFailure('vacuity: %s' % ev.cov['counts'])
